@@ -9,26 +9,29 @@ ENTRY = dict(
         level_text=(
             "Proof: for a set() issued in ANY idle state and followed by ANY history of reports, clock advances, timer expiries and executor answers, "
             "`tx_value` (every set request carries the requested value), `tx_count` (at most `retries`), `tx_spacing` / `tx_spacing_exact` "
-            "(consecutive set requests >= timeout apart; exactly t0 + k*timeout when request construction does not suspend), `refresh_iff_tracked` / "
-            "`refresh_iff_untracked` (no re-read when versions are tracked; otherwise set, re-read, set, re-read ... with every set request paired once the call has returned), "
+            "(consecutive set requests >= timeout apart; exactly t0 + k*timeout when request construction does not suspend), `refresh_per_attempt` "
+            "(the tracking flag is read once per attempt and may change during the call: a set request made while it is off is followed by exactly one re-read, "
+            "one made while it is on by none), `refresh_iff_tracked` / `refresh_iff_untracked` (its corollaries for a constant flag), "
             "`true_sound` (True only after a report != previous value received while the call ran), `false_sound` (False only after exactly `retries` set requests "
             "and only stale reports), `nothing_after_return`, and `holds`: the executable statement C08.spec (a monitor that sees only events and outputs) accepts every observation of the machine. The machine is tied to parameter.py and the four parameter subclasses by running both on generated histories "
             "(random; exhaustive words over {stale, confirming, third value, timer[, executor answer]} for retries 0..3) with reports entering through "
             "device.handle_frame(<parameters response bytes>), and C08.spec is evaluated by the Lean driver on every implementation observation."),
         level_note="Trusted: Lean kernel; SetM <-> parameter.py tie is differential (event histories under the virtual loop); asyncio (sleep, Queue, tasks) exercised, not modelled. "
-                   "Version-tracking status is fixed during one call.",
+                   "The display->raw front of set() is tied through the C17/C06 model: the rig calls set(<display value>) on scaled rows and the requested raw value is Lean's toRaw.",
         clauses={
             "set requests carry the requested value and no other": "theorem (tx_value) + correspondence (incl. late encoding of queued requests)",
             "at most `retries` set requests": "theorem (tx_count)",
             "one per `timeout` interval": "theorem (tx_spacing, tx_spacing_exact)",
-            "each followed by a re-read request iff versions are not tracked": "theorem (refresh_iff_tracked, refresh_iff_untracked)",
+            "each followed by a re-read request iff versions are not tracked": "theorem (refresh_per_attempt; refresh_iff_tracked, refresh_iff_untracked for a constant flag)",
+            "the set request addresses the parameter it was called on (index, sub-device, thermostat offset, schedule number)": "correspondence (asserted by the rig on 20 parameter addresses)",
+            "set(<display value>) transmits toRaw(display value)": "correspondence with the C17/C06 model's toRaw (display sweep over every scaled row)",
             "returns True only after a report with a value different from the previous one": "theorem (true_sound)",
             "returns False only after `retries` unconfirmed transmissions": "theorem (false_sound)",
             "every interleaving of stale / confirming / unrelated reports with the retry timer": "theorem (histories are universally quantified); model <-> code by correspondence",
             "defaults retries=5, timeout=5.0": "table (defaults, from the translator)",
         },
         assumptions=COMMON_ASSUME + [
-            "is_tracking_changes (device.has_frame_version) does not change while one set() call is running",
+            "the tracking flag only changes between the machine's steps (a frame-versions announcement is one event)",
             "a timer expiry and another event never carry the same virtual timestamp (harness times are quantised)",
         ],
         timeout={"quick": 300, "thorough": 1500},
